@@ -27,12 +27,12 @@ CHECKS = {
                 text="For a generated request and a chosen trait t, the impl items of t are compared between the full request and one where every other trait (except the documented partner) is dropped or re-configured.",
                 note="documented couplings Copy/Clone, Eq/PartialEq, Ord/PartialOrd are kept together"),
     "C16": dict(engine="P", design="5/C16",
-                technique="property-based testing: repeated expansion (8x in-process, 6-32 fresh processes) of generated multi-Into and double-fault requests, outputs must be identical",
-                text="Detects nondeterministic output or diagnostics probabilistically: every HashMap in the subject gets a fresh RandomState per expansion and per process.",
+                technique="property-based testing: repeated expansion (8x in-process, forwards/backwards history, 6-32 fresh processes) and a dev-profile vs release-profile build differential over generated multi-Into, double-fault and integer-heavy requests; outputs must be identical",
+                text="Detects nondeterministic output or diagnostics probabilistically: every HashMap in the subject gets a fresh RandomState per expansion and per process; state leaking between expansions shows in the history pass; dependence on the build profile shows in the dev/release differential.",
                 note="a nondeterministic order over k items survives with probability (1/k!)^7 per case"),
     "C17": dict(engine="P+R", design="5/C17",
-                technique="property-based fuzzing: token-level mutants of valid requests under catch_unwind, every panic re-run through rustc; nesting ladder in child processes",
-                text="Tens of thousands of structure-aware token mutants per run must yield Ok or a renderable Err; candidates are confirmed with the shipping macro. A watchdog maps hangs to exit 2.",
+                technique="property-based fuzzing: token-level mutants of valid requests and a bounded-exhaustive attribute grid, expanded in CPU-time-limited child processes (a crash or a busy loop names its input), every candidate re-run through rustc; nesting ladder; libFuzzer lane in the thorough tier",
+                text="Tens of thousands of structure-aware token mutants per run must yield Ok or a renderable Err; panics, process deaths (stack overflow, abort) and CPU-time exhaustion are candidates that are confirmed with the shipping macro under rustc. Non-termination is decided by CPU time (120 s in the child, 60 s inside rustc for a request whose neighbours need microseconds); a wall-clock-only timeout is exit 2.",
                 note="fallback-printer-only panics are not reported; depth beyond 64 is only sampled by the ladder (open finding F4b)"),
 }
 
@@ -58,9 +58,9 @@ CHECKS = dict(sorted(CHECKS.items()))
 CHECKS["C11"] = dict(engine="R", design="5/C11",
     technique="property-based testing with a reference model: generated generic types probed with compile-time trait-resolution tests for every Yes/NoX instantiation, expected value from a model of delegated fields and std's documented impls (self-validated)",
     text="For generated generic types and every instantiation of their parameters with marker types that do or do not implement the trait, `Type<Args>: Trait` is evaluated by the compiler and compared with the model: all delegated fields implement the required trait and educed supertraits apply.",
-    note="the std-impl table covers ten type constructors and probes itself in the same program (a disagreement is exit 2); requests hitting an open C01 finding are excluded")
+    note="structs, enums and unions; the std-impl table covers eleven type constructors (incl. raw pointers and two-parameter tuples) and probes itself in the same program (a disagreement is exit 2); requests hitting an open C01 finding are excluded")
 CHECKS["C18"] = dict(engine="C+P", design="5/C18",
-    technique="configuration enumeration + property-based differential testing: feature subsets built with cargo (all 4096 in the thorough tier), subset-built driver vs all-features expansion over generated requests",
+    technique="configuration enumeration + property-based differential testing: feature subsets built with cargo (all 4096 in the thorough tier, plus the non-trait feature `full` alone / with one trait / with all), subset-built driver vs all-features expansion over generated valid and invalid requests",
     text="Build half: cargo check of /repo with exactly the subset must succeed warning-free (empty set: explicit message). Behaviour half: the subject compiled with the subset must expand generated requests over enabled traits to the same tokens as the all-features build and refuse disabled traits as unsupported. Thorough tier is exhaustive over subsets.",
     note="quick tier samples ~100 subsets for the build half and ~19 for the behaviour half; per-worker cargo target directories under /verif/target/feat-*")
 CHECKS["C19"] = dict(engine="R+P", design="5/C19",
